@@ -1041,6 +1041,28 @@ def engine_at_fault(it, mname, sv, tol):
         return False
 
 
+def engine_refuses_solvable(it, mname, sv):
+    """True iff the engine behind `sv`, called DIRECTLY on the compiled program of this build, does not report an optimum
+    although another engine solves the very same snapshot: the refusal is then the engine's own (seen: HiGHS presolve
+    declaring a feasible MILP infeasible for one row order), not something RSOME's build history did."""
+    try:
+        from machines.peer import snapshot
+        snap = snapshot(it.env[mname].do_math())
+        if direct.DIRECT[ENGINE_OF[sv]](snap) is not None:
+            return False
+        for e in ('gurobi', 'ortools', 'scipy', 'ecos'):
+            if e == ENGINE_OF[sv]:
+                continue
+            try:
+                if direct.DIRECT[e](snap) is not None:
+                    return True
+            except Exception:
+                pass
+        return False
+    except Exception:
+        return False
+
+
 def check_case(case, props):
     decl = case['decl']
     fam = case['family']
@@ -1174,6 +1196,10 @@ def check_case(case, props):
                     if out['sol'] != outs['sol']:
                         if 'opt' in (out['sol'], outs['sol']) and _soft(out, outs):
                             inconc('soft_failure:' + eng)
+                            continue
+                        if k == 'solve' and 'opt' in (out['sol'], outs['sol']) and \
+                                engine_refuses_solvable(it if out['sol'] != 'opt' else it_s, decl['model'], eng):
+                            inconc('engine_defect_status:' + eng)
                             continue
                         viol('L3-status', '%s(%s) after %d steps of schedule #%d: incremental %s vs from-scratch %s'
                              % (k, eng, len(done_sids), si, _brief(out), _brief(outs)), executed, sched=si)
